@@ -72,15 +72,30 @@ class Lock:
 
 # ------------------------------------------------------------------------------------------ build steps
 def translate():
-    """tie #1: regenerate coq/Generated from /repo. Returns (ok, errors, parsed-json)."""
-    rc, out, _ = sh([sys.executable, os.path.join(VERIF, "tools", "rs2v.py"), "--allow-errors"])
+    """tie #1: regenerate coq/Generated from /repo. Returns (ok, errors, parsed-json).
+    If an item cannot be parsed any more, the finite-domain items are taken from the extensional dump (which needs the
+    harness): the theorems are then still re-checked against exactly what the code computes, and the run is marked degraded."""
+    rs2v = [sys.executable, os.path.join(VERIF, "tools", "rs2v.py"), "--allow-errors"]
+    rc, out, _ = sh(rs2v)
     errs = [l for l in out.splitlines() if l.startswith("TRANSLATOR-ERROR")]
+    if errs:
+        okh, _, _ = build_harness()
+        if okh:
+            dump = os.path.join(WORK, "tables_dump.json")
+            sh("%s tables > %s" % (FQH, dump), timeout=600)
+            rc, out, _ = sh(rs2v + ["--dump", dump])
+            errs = [l for l in out.splitlines() if l.startswith("TRANSLATOR-ERROR")]
+            for l in out.splitlines():
+                if l.startswith("TRANSLATOR-DEGRADED") or l.startswith("TRANSLATOR-NOTE"):
+                    log(l)
     parsed = {}
     try:
         parsed = json.load(open(os.path.join(WORK, "tables_parsed.json")))
     except Exception as e:  # noqa
         errs.append("TRANSLATOR-ERROR no parsed json: %s" % e)
-    return (rc == 0 and not errs), errs, parsed
+    # after a fallback the remaining parse errors are notes unless a key needed for emission is still missing
+    emitted = "rs2v: ok" in out
+    return (emitted and not [e for e in errs if "emit" in e or "no parsed" in e] and (not errs or bool(parsed.get("degraded")))), errs, parsed
 
 
 def build_harness():
